@@ -725,6 +725,10 @@ static void case_c16(const drvargs_t *a,long id){
     int e0=vorbis_synthesis_headerin(&di,&dc,&h[0]); int e1=e0?e0:vorbis_synthesis_headerin(&di,&dc,&h[1]); res_eval(1);
     if(e1) res_viol("C16","comment-header-rejected","headerin %d/%d (n=%d, %ld bytes)",e0,e1,n,totbytes);
     else {
+      if(rng_chance(&r,0.3)){ /* a duplicated header packet (remuxer, retry) is refused - and the refusal must leave what was read before as it was */
+        int which=(int)rng_below(&r,2); int e2=vorbis_synthesis_headerin(&di,&dc,&h[which]); res_eval(1); res_count("repeated_header_packets_offered",1);
+        if(e2>=0) res_viol("C16","repeated-header-accepted","a second %s header was accepted (%d)",which?"comment":"identification",e2);
+      }
       int same=1;
       if(dc.comments!=n){ res_viol("C16","count-differs","read back %d, wrote %d",dc.comments,n); same=0; }
       else for(int i=0;i<n;i++){
